@@ -14,7 +14,7 @@ import re as _re
 
 from sa.core.common import AnalysisError, Collector
 from sa.core.paths import enumerate_paths, guards, parent_map
-from sa.core.pyfacts import Repo, arg, call_name, const_str, kwarg, src, walk_no_nested
+from sa.core.pyfacts import Repo, arg, call_name, const_str, kwarg, src, walk_no_nested, ordk, ordk_end
 from sa.core.templates import holes_inside_string_literals, parts, shape
 from sa.props._tr import defs_of, resolve_name, visitor_methods
 
@@ -289,7 +289,7 @@ def _rejects_nonfinite(fn) -> bool:
                 if tr and ("isfinite" in s and s.count("not") % 2 == 1 or "isinf" in s or "isnan" in s) and "not math.isinf" not in s:
                     # must come before any return
                     rets = [x for x in walk_no_nested(fn) if isinstance(x, ast.Return)]
-                    return all(x.lineno > r.lineno for x in rets)
+                    return all(ordk(x) > ordk(r) for x in rets)
     return False
 
 
